@@ -3,15 +3,15 @@ from __future__ import annotations
 
 import itertools
 
-from mc import pipeline
+from mc import pipeline, seqdiff
 from mc.common import HarnessError, Stats, pmap, safe, shards
 
 PROPERTY = 'C08'
 LEVEL = 'model_checking'
 RULE = ('the real ranking task (outrank_task_conduct_ranking, in-process pool, recording wrappers around the batch scorer and the checkpoint writer) on generated CSV files: '
-        '(a) every sequence of k<=7 (quick) / k<=10 (thorough) data lines over {well-formed, malformed}, malformed rendered as one field too few / too many, each well-formed row '
+        '(a) every sequence of k<=7 (quick) / k<=10 (thorough) data lines over {well-formed, malformed}, malformed rendered as one field too few / too many / an empty line, each well-formed row '
         'unique to its position, x minibatch_size {1,2,3} x subsampling {1,2,3}; (b) tail-boundary family at the real threshold: accepted rows = q*B+t for B in {1025,1500}, '
-        'q in {0,1,2}, t in {0,1,1023,1024,1025,B-1}, subsampling {1,2}, with <= 2 malformed rows at boundary-adjacent positions; (c) header-only / empty-body files. Oracle: independent '
+        'q in {0,1,2}, t in {0,1,1023,1024,1025,B-1}, subsampling {1,2}, with <= 2 malformed rows at boundary-adjacent positions; (c) header-only / empty-body files; every k<=4 file also through the real command-line entry point (argparse namespace). Oracle: independent '
         'reference batcher; recorded batches, invalid count, per-batch triplets (differential re-scoring), every checkpoint prefix, final medians and order. '
         'states = batch boundaries reached (each with its checkpoint compared); transitions = data lines consumed; non-trivial = files with >= 2 batches or >= 1 malformed row')
 ASSUMPTIONS = ['scoring inside a batch is the real scorer (C05 judges it); the combination cap is non-binding here so that per-batch multiplicities are uniform',
@@ -31,6 +31,8 @@ def render(kinds, bad_style):
             lines.append(good_row(i))
         elif bad_style == 'few':
             lines.append(f'r{i},{i % 2}')
+        elif bad_style == 'blank':
+            lines.append('')
         else:
             lines.append(f'r{i},{i % 3},{i % 2},x')
     return '\n'.join(lines) + '\n'
@@ -41,13 +43,19 @@ def _small(job):
     st = Stats()
     seqs = list(itertools.product('gb', repeat=k))[lo:hi]
     for kinds in seqs:
-        styles = ('few', 'many') if 'b' in kinds else ('few',)
+        styles = ('few', 'many', 'blank') if 'b' in kinds else ('few',)
         for style in styles:
             text = render(kinds, style)
             for mb in (1, 2, 3):
                 for sub in (1, 2, 3):
                     over = dict(minibatch_size=mb, subsampling=sub)
                     fails, info = pipeline.judge_streaming(text, over)
+                    if k <= 4 and not fails:
+                        # the same file through the real command line (argparse in outrank.__main__)
+                        f2, _ = pipeline.judge_streaming(text, dict(over, task='ranking'), via_cli=True)
+                        st.count('evaluations')
+                        st.count('cli_runs')
+                        fails = [(dict(sig, via_cli=True), 'via the command line: ' + msg) for sig, msg in f2]
                     st.count('evaluations')
                     st.count('traces_validated')
                     st.count('transitions', k)
@@ -142,8 +150,27 @@ def _edge(_):
     return st
 
 
+SEQ_FILES = [(render(tuple('gggg'), 'few'), 2, 1), (render(tuple('gbgggg'), 'many'), 1, 2), (render(tuple('ggggggg'), 'few'), 3, 1)]
+
+
+def seq_call(x):
+    text, mb, sub = x
+    obs = pipeline.run_task(text, dict(minibatch_size=mb, subsampling=sub, include_cardinality_in_feature_names='False', heuristic='MI-numba-randomized'), reset=False)
+    return {'batches': obs['batches'], 'pairwise': obs['pairwise'], 'checkpoints': obs['checkpoints'], 'invalid': obs['invalid'], 'exit': obs['exit']}
+
+
+def _seqdiff(_):
+    """two ranking tasks one after the other in one process (a library user, a notebook, the test-suite): the second must not see the first"""
+    st = Stats()
+    seqdiff.run(seq_call, SEQ_FILES, 2, st, lambda seq, pos: {'kind': 'seqdiff', 'seq': list(seq)}, {'kind': 'history_dependent', 'family': 'task_sequence'})
+    st.count('traces_validated', int(st.n['seqdiff_calls']))
+    return st
+
+
 def _dispatch(item):
     k, job = item
+    if k == 'seqdiff':
+        return _seqdiff(job)
     return {'small': _small, 'tail': _tail, 'edge': _edge}[k](job)
 
 
@@ -155,6 +182,7 @@ def run(ctx):
     tc = tail_cases(ctx.thorough)
     jobs += [('tail', tc[i::64]) for i in range(64) if tc[i::64]]
     jobs.append(('edge', None))
+    jobs.append(('seqdiff', None))
     for st in pmap(_dispatch, jobs):
         ctx.stats.merge(st)
     ctx.extra['k_max'] = kmax
@@ -164,6 +192,8 @@ def run(ctx):
 
 
 def eval_case(case):
+    if case['kind'] == 'seqdiff':
+        return seqdiff.replay(seq_call, SEQ_FILES, case['seq'])
     if case['kind'] == 'small':
         text = render(tuple(case['lines']), case['bad_style'])
         fails, _ = pipeline.judge_streaming(text, dict(minibatch_size=case['minibatch_size'], subsampling=case['subsampling']))
